@@ -726,7 +726,7 @@ def judge(ctx, case, out, tout, meta, reply):
     fn = case["fn"]
     arcs, problems = meta[-2], meta[-1]
     idx = meta[0]
-    m_status, m_x, m_cost, m_pot, m_cut, m_iters, m_cancel, m_cert, ichks = reply
+    m_status, m_x, m_cost, m_pot, m_cut, m_iters, m_cancel, m_cert, ichks, m_feature = reply
     if m_status == "negcycle" or not m_cert:
         raise Infra(f"C09 model did not certify its own answer (status={m_status}, cert={m_cert}) on {case}")
     ctx.count("cert_checked_model")
@@ -735,7 +735,9 @@ def judge(ctx, case, out, tout, meta, reply):
     nontrivial = m_iters >= 2 or m_cancel >= 1
     rep = {"case": case, "impl": out, "model": {"status": m_status, "flow_per_arc": m_x, "cost": m_cost,
                                                 "potentials": m_pot, "cut": m_cut}, "arcs_indexed": arcs}
-    feature = has_feature(arcs)
+    feature = m_feature        # `hasPairFeature` evaluated in Lean (pair_costs_faithful_partial is about it)
+    if feature != has_feature(arcs):
+        raise Infra(f"C09: harness and Lean disagree on the node-pair feature of {case}")
     if fn == "min_cost_flow":
         suffix = ":antiparallel_or_mixed_parallel" if feature else ""
         if feature:
@@ -785,6 +787,13 @@ def judge(ctx, case, out, tout, meta, reply):
                                  "certified_cost": m_cost})
 
 
+def _summarise(ctx):
+    h = ctx.cov["histogram"]
+    for k in ("cert_checked_model", "cert_checked_impl", "r_prop_agree", "r_trace_agree"):
+        ctx.cov[k] = h.get(k, 0)
+    ctx.cov["timeouts"] = sum(v for k, v in h.items() if k.startswith("fail:") and ":no_return" in k)
+
+
 def run(ctx, budget):
     ctx.cov["rule"] = RULE
     ctx.cov["missing_theorems"] = ["ssp_certifies [S]: the SSP model emits a valid certificate on every input "
@@ -799,6 +808,7 @@ def run(ctx, budget):
         if i % 3 == 0:
             cases.append(gen_assign(ctx.rng, b))
     run_cases(ctx, cases)
+    _summarise(ctx)
 
 
 def replay(ctx, body):
@@ -807,3 +817,4 @@ def replay(ctx, body):
     if "from" in c:       # a network_simplex twin of a min_cost_flow case: replay the network_simplex instance
         c = {"fn": "network_simplex", "n": c["n"], "arcs": c["arcs"], "supplies": c["supplies"]}
     run_cases(ctx, [c])
+    _summarise(ctx)
